@@ -136,7 +136,7 @@ _box = st.one_of(
 )
 _boxkind = st.sampled_from(['float', 'float', 'float', 'float', 'int', 'int', 'f32', 'f64'])
 _dtype = st.sampled_from(['float32', 'float64'])
-_outmode = st.sampled_from(['none', 'none', 'false', 'arr', 'flat'])
+_outmode = st.sampled_from(['none', 'none', 'false', 'arr', 'flat', 'strided'])
 _w32 = st.one_of(st.sampled_from(_W32_SPECIAL), st.integers(-(2**31), 2**31 - 1), st.integers(-(2**31), -1))
 _w64 = st.one_of(st.sampled_from(_W64_SPECIAL), st.integers(0, 2**64 - 1), st.builds(lambda a, b: a | b, st.integers(0, 2**64 - 1), st.sampled_from([0x07FE000000000000, 0x7FFF7FFF7FFF, 1 << 48])))
 
@@ -380,6 +380,10 @@ def _run_rvint(d):
         if mode == 'arr':
             buf = np.full((n + 2 * M, 3), SENT, dtype=dtype)
             view = buf[M : M + n]
+        elif mode == 'strided':
+            # a non-contiguous (n,3) view: one half of an (n,6) phase-space block
+            buf = np.full((n + 2 * M, 6), SENT, dtype=dtype)
+            view = buf[M : M + n, :3] if name == 'pos' else buf[M : M + n, 3:]
         else:
             buf = np.full(3 * (n + 2 * M), SENT, dtype=dtype)
             view = buf[3 * M : 3 * (M + n)]
@@ -405,14 +409,21 @@ def _run_rvint(d):
         elif mode == 'false':
             if isinstance(ret[k], np.ndarray) and ret[k].size:
                 raise Violation('rvint-return', '%s: not requested but an array was returned' % what)
+            if not isinstance(ret[k], np.ndarray) and int(ret[k]) != 0:
+                raise Violation('rvint-return', '%s: not requested, but %r particles are reported as unpacked into it (callers size their tables with this count)' % (what, ret[k]))
         else:
             buf, view, _ = bufs[name]
             if isinstance(ret[k], np.ndarray) or int(ret[k]) != n:
                 raise Violation('rvint-return', '%s: supplied output, returned %r expected the particle count %d' % (what, ret[k], n))
-            flat = buf.reshape(-1)
-            if not (np.all(flat[: 3 * M] == SENT) and np.all(flat[3 * (M + n) :] == SENT)):
-                raise Violation('rvint-canary', '%s: wrote outside the supplied output' % what)
-            _cmp(view.reshape(n, 3), ref, tol, 'rvint-%s-wrong' % name, what)
+            if mode == 'strided':
+                other = buf[M : M + n, 3:] if name == 'pos' else buf[M : M + n, :3]
+                if not (np.all(buf[:M] == SENT) and np.all(buf[M + n :] == SENT) and np.all(other == SENT)):
+                    raise Violation('rvint-canary', '%s: wrote outside the supplied (strided) output' % what)
+            else:
+                flat = buf.reshape(-1)
+                if not (np.all(flat[: 3 * M] == SENT) and np.all(flat[3 * (M + n) :] == SENT)):
+                    raise Violation('rvint-canary', '%s: wrote outside the supplied output' % what)
+            _cmp(np.asarray(view).reshape(n, 3), ref, tol, 'rvint-%s-wrong' % name, what)
     _counts['rvint_words_decoded'] += 3 * n
 
 
